@@ -86,6 +86,14 @@ def gen_cases(rng, n, tier):
     return out
 
 
+def corpus():
+    # a child deleted and re-created under the same key within one flush, not given its parent: the row is switched
+    # and keeps its foreign key, so the re-created child still belongs to its parent
+    prog = [['add', 0, 2, {'a': 1}], ['add', 1, 2, {'a': 0}], ['tagto', 2, 2], ['commit'],
+            ['del', 1, 2], ['add', 1, 2, {'a': 1}], ['commit'], ['set', 0, 2, {'a': 2}], ['commit']]
+    return [dict(kind='H', strategy=st, prog=prog) for st in ('subquery', 'validity')]
+
+
 def gen_tag_program(rng):
     prog = [['add', 0, 1, {'a': 1}], ['add', 0, 2, {'a': 1}], ['add', 1, 1, {'a': 0}], ['add', 1, 2, {'a': 0}], ['commit']]
     arts, tags = {1, 2}, {1, 2}
@@ -101,10 +109,15 @@ def gen_tag_program(rng):
             prog.append(['set', 1, rng.choice(sorted(tags)), {'a': rng.choice([0, 1, 2])}])
         elif r < 0.66 and arts:
             prog.append(['set', 0, rng.choice(sorted(arts)), {'a': rng.choice([0, 1, 2])}])
-        elif r < 0.72 and len(tags) > 1:
+        elif r < 0.74 and len(tags) > 1:
             t = rng.choice(sorted(tags))
             prog.append(['del', 1, t])
             tags.discard(t)
+            if rng.random() < 0.5:
+                # re-created under the same key in the same flush and not given a parent: SQLAlchemy switches the row
+                # (an UPDATE of the given attributes only), the live row keeps its foreign key
+                prog.append(['add', 1, t, {'a': 2}])
+                tags.add(t)
         elif r < 0.78:
             t = rng.choice([1, 2, 3])
             if t not in tags:
